@@ -155,8 +155,7 @@ Section ScanFacts.
         * intros k Hk. apply inter_In. auto.
         * intros c k Hk. apply interp_In. auto.
     - destruct (scan E cur p d); inversion H; apply sub_refl.
-    - destruct cur; try discriminate.
-      destruct (scan E (Some c) p d) eqn:E1; try discriminate; inversion H.
+    - destruct (scan E (Some c) p d) eqn:E1; try discriminate; inversion H.
       + apply sub_refl.
       + split; simpl; auto. intros. apply addp_In. auto.
   Qed.
@@ -393,8 +392,6 @@ Section Sound.
           -- simpl. exact R.
         * simpl. repeat split; auto. exists d. split; auto. exists A. auto.
     - (* IfComp *)
-      destruct cur as [c0|].
-      { subst v. exfalso. eapply Hnr. reflexivity. }
       simpl. rewrite H1, H2.
       destruct (present c cl) eqn:Ep.
       + assert (Hcur' : cur_ok (Some c)).
